@@ -701,3 +701,42 @@ Qed.
 Lemma alias_sound_init pol rev0 ops c :
   In c (chunks_of (r_outs (urun (uinit pol rev0) ops))) -> groups_sound (handed rev0 ops) (snd (fst c)).
 Proof. intros Hin. unfold handed. exact (alias_sound ops rev0 (uinit pol rev0) (rev_sound_self rev0) c Hin). Qed.
+
+(* ---------- C20: the interval bound on the model clock (ticks as events) ---------- *)
+
+(* state, outputs and return codes of a history extended by one event *)
+Lemma urun_snoc ops : forall s o,
+  let r := urun s ops in let st := ustep (r_state r) o in
+  r_state (urun s (ops ++ [o])) = fst (fst st) /\
+  r_outs (urun s (ops ++ [o])) = r_outs r ++ snd (fst st) /\
+  r_rets (urun s (ops ++ [o])) = r_rets r ++ [snd st].
+Proof.
+  induction ops as [|a ops IH]; intros s o; cbn zeta.
+  - cbn. rewrite app_nil_r. repeat split.
+  - rewrite <- app_comm_cons.
+    destruct (urun_cons s a (ops ++ [o])) as (-> & -> & _ & ->).
+    destruct (urun_cons s a ops) as (-> & -> & _ & ->).
+    destruct (IH (fst (fst (ustep s a))) o) as (-> & -> & ->).
+    rewrite app_assoc. repeat split.
+Qed.
+
+(* a tick on a closed stream changes nothing, so a stream that is open after a tick was open before it *)
+Lemma tick_open_before s : u_closed (fst (fst (ustep s Tick))) = false -> u_closed s = false.
+Proof. cbn [ustep]. destruct (u_closed s) eqn:E; cbn [fst]; [rewrite E; auto | reflexivity]. Qed.
+
+(* on the model clock: after any history that ends with a tick and leaves the stream open and not
+   failed, every point accepted so far is in a chunk *)
+Lemma interval_hold pol rev0 ops id :
+  let r := urun (uinit pol rev0) (ops ++ [Tick]) in
+  u_closed (r_state r) = false -> u_failed (r_state r) = false ->
+  u_buf (r_state r) = [] /\
+  chunks_pts id (chunks_of (r_outs r)) = accepted_pts id (ops ++ [Tick]) (r_rets r).
+Proof.
+  intros r Hc Hf.
+  assert (Hb : u_buf (r_state r) = []).
+  { subst r. destruct (urun_snoc ops (uinit pol rev0) Tick) as (E & _ & _). cbn zeta in E.
+    rewrite E in *. apply tick_empties; [now apply tick_open_before | exact Hf]. }
+  split; [exact Hb|].
+  pose proof (conservation id (ops ++ [Tick]) (uinit pol rev0) (inv_init pol rev0)) as H.
+  cbn zeta in H. fold r in H. rewrite Hb in H. cbn in H. now rewrite app_nil_r in H.
+Qed.
